@@ -16,6 +16,14 @@ def _val(dtype, x):
 
 def _args(dtype, args):
     out = {}
+    if "flags" in args:
+        # a compiled pattern carrying its flags ([] = compiled, no flags)
+        import re
+        f = 0
+        for name in args["flags"]:
+            f |= getattr(re, name)
+        args = {k: v for k, v in args.items() if k != "flags"}
+        args["pattern"] = re.compile(args["pattern"], f)
     for k, v in args.items():
         if isinstance(v, list):
             out[k] = [_val(dtype, x) for x in v]
@@ -24,7 +32,18 @@ def _args(dtype, args):
     return out
 
 
+def _boom(obj):
+    raise RuntimeError("check function raised")
+
+
 def build_check(pa, dtype, chk):
+    if chk["kind"] == "custom_raise":
+        return pa.Check(_boom, name="custom_raise")
+    if chk["kind"] == "custom_agg":
+        k = chk["args"]["value"]
+        # one boolean for the whole column / frame
+        return pa.Check(lambda obj: bool(len(obj) <= k), name=f"custom_len_le_{k}",
+                        **({} if chk.get("ignore_na", True) else {"ignore_na": False}))
     kw = {}
     if not chk.get("ignore_na", True):
         kw["ignore_na"] = False
@@ -85,7 +104,7 @@ def pandas_schema(spec, parsers=None):
 
 
 def _pd_array(phys, values):
-    if phys == "int64":
+    if phys in ("int64", "range"):
         return np.array(values, dtype="int64")
     if phys == "int32":
         return np.array(values, dtype="int32")
@@ -112,6 +131,13 @@ def pandas_index(tindex, n):
     levels = tindex["levels"]
     if len(levels) == 1:
         lv = levels[0]
+        if lv["phys"] == "range":
+            # a RangeIndex that is not RangeIndex(0, n, 1): a slice df.iloc[k:],
+            # a 1-based or a stepped range
+            r = pd.RangeIndex(lv["start"], lv["start"] + len(lv["values"]) * lv["step"], lv["step"],
+                              name=lv["name"])
+            assert list(r) == list(lv["values"]), (list(r), lv)
+            return r
         return pd.Index(_pd_array(lv["phys"], lv["values"]), name=lv["name"])
     return pd.MultiIndex.from_arrays(
         [pd.Index(_pd_array(lv["phys"], lv["values"])) for lv in levels],
@@ -183,7 +209,30 @@ def polars_schema(spec):
         coerce=spec.get("coerce", False),
         drop_invalid_rows=spec.get("drop_invalid_rows", False),
         dtype=pl_dtype(spec.get("dtype")),
+        checks=[pl_frame_check(pa, c) for c in spec.get("pl_frame_checks") or []] or None,
     )
+
+
+def pl_frame_check(pa, c):
+    """Custom dataframe-level checks for polars whose result depends on ALL the
+    columns the check function is shown (their number, their names, a
+    horizontal aggregate over every column), whatever the column types are."""
+    import polars as pl
+    k, v = c["kind"], c["value"]
+    if k == "width_eq":
+        return pa.Check(lambda data: len(data.lazyframe.collect_schema().names()) == v,
+                        name=f"width_eq_{v}")
+    if k == "columns_eq":
+        return pa.Check(lambda data: list(data.lazyframe.collect_schema().names()) == list(v),
+                        name="columns_eq")
+    if k == "row_null_count_le":
+        return pa.Check(lambda data: data.lazyframe.select(
+            pl.sum_horizontal(pl.all().is_null().cast(pl.Int64)).le(v)), name=f"row_null_count_le_{v}")
+    if k == "row_non_null_count_le":
+        return pa.Check(lambda data: data.lazyframe.select(
+            pl.sum_horizontal(pl.all().is_not_null().cast(pl.Int64)).le(v)),
+            name=f"row_non_null_count_le_{v}")
+    raise KeyError(k)
 
 
 def polars_table(table, lazy=False):
